@@ -34,7 +34,7 @@ struct RunResult {
 // the object lives in storage pre-filled with `pattern`, the stack below the calls is pre-filled with it too:
 // any statistic that depends on an uninitialised member or local differs between two patterns
 inline RunResult runApi(const SolverCfg& cfg, int gridFile, const std::string& fr, const std::string& ft, unsigned char pattern, int verbosity = 0,
-                        int paraview = 0, int writeGrid = 0)
+                        int paraview = 0, int writeGrid = 0, int poison = 0)
 {
     RunResult r;
     void* raw = ::operator new(sizeof(GMGPolar));
@@ -51,6 +51,24 @@ inline RunResult runApi(const SolverCfg& cfg, int gridFile, const std::string& f
         return r;
     }
     try {
+        if (poison) {
+            // the same object first receives a combination that setup() must reject; the exception is caught and the real
+            // configuration applied afterwards: a rejected call must leave nothing behind (the two runs of a record are
+            // compared bit for bit)
+            cfg.select(*s);
+            cfg.applyOptions(*s);
+            if (poison == 1) {
+                s->stencilDistributionMethod(StencilDistributionMethod::CPU_TAKE);
+                s->cacheDomainGeometry(false);
+            }
+            else
+                s->maxLevels(1);
+            try {
+                s->setup();
+            }
+            catch (const std::exception&) {
+            }
+        }
         if (cfg.via_cli) {
             std::vector<std::string> a = cfg.argvAll();
             std::vector<char*> argv;
@@ -172,7 +190,9 @@ inline Outcome runApiCase(const KV& c)
     RunResult r1 = runApi(cfg, gridFile, fr, ft, 0x5a);
     // second run: other memory pattern, generated verbosity, and the output options switched on - none of them may
     // change a statistic or the solution
-    RunResult r2 = runApi(cfg, gridFile, fr, ft, 0xc3, (int)c.getI("verbose2", 0), paraview2, writeGrid);
+    RunResult r2 = runApi(cfg, gridFile, fr, ft, 0xc3, (int)c.getI("verbose2", 0), paraview2, writeGrid, (int)c.getI("poison2", 0));
+    if (c.getI("poison2", 0))
+        o.cls("reused_after_rejected_setup");
     if (paraview2) {
         if (!r2.threw && cfg.max_its >= 0) {
             struct stat st;
@@ -462,6 +482,7 @@ inline KV genOptionsCase()
         c.putI("grid_file", rweighted({8, 1, 1, 1, 1, 1}));
         c.putI("verbose2", rweighted({1, 1, 1})); // verbosity of the second run (the first one is silent)
         c.putI("paraview2", rweighted({3, 1}));
+        c.putI("poison2", rweighted({5, 1, 1}));
         c.putI("write_grid", rweighted({4, 1}));
     }
     else {
